@@ -24,7 +24,19 @@ def regulate_iteration(c, L, key, interval):
     }
 
 
-def _run_contract(shape, key, valid):
+def delegate_iteration(c, L, key, interval):
+    """DemandSwitch: call regulate(self, interval), its ONE delegation to a slaved controller [which may write demand once], sleep(interval)"""
+    n = c.n_events()
+    first = c.event_at(0) == c.event("call", key, L.self, interval)
+    last = c.event_at(n - 1) == c.event("sleep", interval)
+    return {
+        "one-regulation-step-with-the-configured-interval-first": first,
+        "then-exactly-one-sleep-of-the-interval": c.And(last, n == 3),
+        "exactly-one-delegation-in-between": c.And(Event.e_kind(c.event_at(1)) == c.ctx.E.event_kind("regulate"), Event.e_b(c.event_at(1)) == interval.t),
+    }
+
+
+def _run_contract(shape, key, valid, iteration=regulate_iteration):
     class R:
         params = dict(self=shape)
         has_events = True
@@ -41,7 +53,7 @@ def _run_contract(shape, key, valid):
             0: Loop(
                 inv=lambda c, L, k: {"controller-unchanged": c.And(valid(c, L.self), L.self.interval >= 0, L.self.interval.same(c.old(L.self).interval), L.self.target == c.old(L.self).target)},
                 modifies=env_frame,
-                step=lambda c, L, L0: regulate_iteration(c, L, key, c.old(L.self).interval),
+                step=lambda c, L, L0: iteration(c, L, key, c.old(L.self).interval),
             )
         }
 
@@ -50,7 +62,7 @@ def _run_contract(shape, key, valid):
 
 contract(K.LIN + ":LinearController.run", props=["C09"])(_run_contract(K.Linear, K.LIN + ":LinearController.regulate", K.linear_valid))
 contract(K.REL + ":RelativeSupplyController.run", props=["C09"])(_run_contract(K.Relative, K.REL + ":RelativeSupplyController.regulate", K.relative_valid))
-contract(K.SW + ":DemandSwitch.run", props=["C09"])(_run_contract(K.Switch, K.SW + ":DemandSwitch.regulate", lambda c, s: K.ascending(c, s._slaves)))
+contract(K.SW + ":DemandSwitch.run", props=["C09"])(_run_contract(K.Switch, K.SW + ":DemandSwitch.regulate", lambda c, s: K.ascending(c, s._slaves), iteration=delegate_iteration))
 
 
 # ---- Buffer ------------------------------------------------------------------------------------------------------
